@@ -511,7 +511,7 @@ fn eval_cli(c: &DCase) -> CaseOutcome {
     let flat = flatten(&prog);
     let lines = vec![0usize; flat.ops.len()];
     let image = data_image(&c.data);
-    let cfg = RunCfg { interpreted: false, script: &[], lines: &lines, max_steps: 10_000, input_lines: None };
+    let cfg = RunCfg { interpreted: false, script: &[], lines: &lines, max_steps: 10_000, input_lines: None, buf_fill: None };
     let rr = ref_run(&flat, &image, &cfg, &Quirks::none());
     let exp = crate::c17::blank_lines(&normalise(&rr.events));
     let out = run_cli(text.as_bytes(), Stdin::Closed, false, 4 << 20, 30_000);
